@@ -2,7 +2,7 @@
    Definitions only.  The tables (gatemap, k guards, helper names and helper type) come from the
    regenerated Gen_limit.v; the models are parametrised by them so that the lemmas of
    Proofs/LimitProofs.v are stated for every table that satisfies a decidable side condition. *)
-From stdpp Require Import strings gmap sets fin_sets pretty.
+From stdpp Require Import strings gmap sets fin_sets pretty sorting.
 From CG Require Export Types Sem Api Oracle Model.Lint.
 From CG Require Import Gen.Gen_limit Gen.Gen_lint.
 Open Scope string_scope.
@@ -163,13 +163,26 @@ Definition short_flops (C : Circuit) : circuit :=
    equiv_check_ren c c' on ρ: both circuits closed and acyclic, same free nodes (c' may have the extra ones in `ext`),
    and for EVERY valuation of the free nodes the unique consistent valuations (evalc, certified by consistentb)
    give n in c and ρ n in c' the same value, for all n in `on`. *)
+(* memoised evaluation in rank order; whatever it computes is only used after consistentb has certified it *)
+Definition node_val (m : gmap string bool) (a : val) (n : string) (i : ninfo) : bool :=
+  if is_free i then a n else
+  match n_ty i with C0 => false | C1 => true | t => gate_val t (λ f, default (a f) (m !! f)) (n_fi i) end.
+Definition rk_le (p q : nat * (string * ninfo)) : Prop := p.1 ≤ q.1.
+Global Instance rk_le_dec p q : Decision (rk_le p q).
+Proof. unfold rk_le. apply _. Defined.
+Definition topo (c : circuit) : list (nat * (string * ninfo)) :=
+  let r := rank_table c in merge_sort rk_le ((λ p, (rank_of r p.1, p)) <$> map_to_list c).
+Definition mval (t : list (nat * (string * ninfo))) (a : val) : val :=
+  let m := foldl (λ m p, <[p.2.1 := node_val m a p.2.1 p.2.2]> m) ∅ t in λ n, default (a n) (m !! n).
 Definition equiv_check_gen (c c' : circuit) (ext : gset string) (on : list string) (ρ : string → string) : bool :=
   closedb c && closedb c' && acyclicb c && acyclicb c'
   && bool_decide (free_nodes c ⊆ free_nodes c') && bool_decide (free_nodes c' ⊆ free_nodes c ∪ ext)
   && forallb (λ n, bool_decide (ρ n ∈ dom c')) on
-  && forallb (λ a, let v := evalc c a in let v' := evalc c' a in
-                   consistentb c v && consistentb c' v' && forallb (λ n, eqb (v n) (v' (ρ n))) on)
-             (all_vals (elements (free_nodes c'))).
+  && (let t := topo c in let t' := topo c' in let fr := elements (free_nodes c') in
+      forallb (λ a, let v := mval t a in let v' := mval t' a in
+                    consistentb c v && consistentb c' v' && eq_on fr v a && eq_on fr v' a
+                    && forallb (λ n, eqb (v n) (v' (ρ n))) on)
+              (all_vals fr)).
 Definition equiv_check (c c' : circuit) : bool := equiv_check_gen c c' ∅ (elements (dom c)) id.
 Definition equiv_check_ext (c c' : circuit) (ext : gset string) : bool := equiv_check_gen c c' ext (elements (dom c)) id.
 Definition equiv_check_ren (c c' : circuit) (on : list string) (ρ : string → string) : bool := equiv_check_gen c c' ∅ on ρ.
